@@ -112,6 +112,98 @@ End Generator.
 Arguments Ret {D Rq R} r.
 Arguments Draw {D Rq R} q k.
 
+(* ---------------- the process around a command: WHATEVER RAN EARLIER.
+   A process is the global generator, everything else that persists between two calls in one
+   interpreter ([M]: module globals, caches, objects shared through them - the store) and the OS
+   entropy an unseeded default_rng() consumes.  Earlier programs are ARBITRARY [pprog]s: they may
+   draw from and re-seed the global generator, read and overwrite the store, consume entropy.
+   The inputs of a command (map files, model, reference; [i] in [P i]) are not in the process:
+   they are immutable - a history that rewrites the input files is outside the property.
+   The command under test is a [pprog] too; "it obtains randomness only through the generator
+   and has no other persistent state" is the predicate [gen_only] (structure: no PGet / PPut /
+   PEntropy node) resp. [store_blind] (semantics: the store and the entropy cannot be observed
+   in its result).  Nothing in Coq says that haptools satisfies it - that is what the
+   correspondence runs test (two runs after different generated histories of other haptools
+   calls on the same files). *)
+Section Process.
+  Variables (S D Rq M : Type).
+  Variable reseed : Z -> S.
+  Variable draw : Rq -> S -> D * S.
+
+  Record proc := mkproc { pr_gen : S; pr_mem : M; pr_entropy : Z }.
+
+  Inductive pprog (R : Type) : Type :=
+  | PRet (r : R)
+  | PDraw (q : Rq) (k : D -> pprog R)      (* np.random.<f>(...) *)
+  | PSeed (z : Z) (k : pprog R)            (* np.random.seed(z) *)
+  | PGet (k : M -> pprog R)                (* read persistent state other than the generator *)
+  | PPut (m : M) (k : pprog R)             (* overwrite it *)
+  | PEntropy (k : Z -> pprog R).           (* default_rng(None): fresh OS entropy *)
+  Arguments PRet {R} r.
+  Arguments PDraw {R} q k.
+  Arguments PSeed {R} z k.
+  Arguments PGet {R} k.
+  Arguments PPut {R} m k.
+  Arguments PEntropy {R} k.
+
+  Fixpoint exec {R} (p : pprog R) (w : proc) : R * proc :=
+    match p with
+    | PRet r => (r, w)
+    | PDraw q k => let '(d, s') := draw q (pr_gen w) in exec (k d) (mkproc s' (pr_mem w) (pr_entropy w))
+    | PSeed z k => exec k (mkproc (reseed z) (pr_mem w) (pr_entropy w))
+    | PGet k => exec (k (pr_mem w)) w
+    | PPut m k => exec k (mkproc (pr_gen w) m (pr_entropy w))
+    | PEntropy k => exec (k (pr_entropy w)) (mkproc (pr_gen w) (pr_mem w) (pr_entropy w + 1))
+    end.
+
+  (* the history of the process: earlier programs, run one after the other (their results are
+     dropped; any program becomes a [pprog unit] by discarding its result) *)
+  Fixpoint run_hist (h : list (pprog unit)) (w : proc) : proc :=
+    match h with
+    | [] => w
+    | p :: r => run_hist r (snd (exec p w))
+    end.
+
+  (* a drawing program of the first section is a process program that touches the generator only *)
+  Fixpoint lift {R} (p : prog D Rq R) : pprog R :=
+    match p with
+    | Ret r => PRet r
+    | Draw q k => PDraw q (fun d => lift (k d))
+    end.
+
+  Inductive gen_only {R} : pprog R -> Prop :=
+  | go_ret : forall r, gen_only (PRet r)
+  | go_draw : forall q k, (forall d, gen_only (k d)) -> gen_only (PDraw q k)
+  | go_seed : forall z k, gen_only k -> gen_only (PSeed z k).
+
+  Definition store_blind {R} (p : pprog R) : Prop :=
+    forall s m e m' e',
+      fst (exec p (mkproc s m e)) = fst (exec p (mkproc s m' e'))
+      /\ pr_gen (snd (exec p (mkproc s m e))) = pr_gen (snd (exec p (mkproc s m' e'))).
+
+  (* simgenotype in a process: the seed guard of simulate_gt, then the simulation *)
+  Definition geno_cmd {O} (legacy : bool) (seed : option Z) (body : pprog O) : pprog O :=
+    match seed with
+    | Some k => if guard_fires legacy seed then PSeed k body else body
+    | None => body
+    end.
+
+  (* simphenotype in a process: a PRIVATE generator default_rng(seed); the global generator
+     and the store are neither read nor written *)
+  Definition pheno_cmd (seed : option Z) (reqs : list Rq) : pprog (list D) :=
+    match seed with
+    | Some k => PRet (fst (fst (replications S D Rq draw reqs (reseed k))))
+    | None => PEntropy (fun e => PRet (fst (fst (replications S D Rq draw reqs (reseed e)))))
+    end.
+End Process.
+
+Arguments PRet {D Rq M R} r.
+Arguments PDraw {D Rq M R} q k.
+Arguments PSeed {D Rq M R} z k.
+Arguments PGet {D Rq M R} k.
+Arguments PPut {D Rq M R} m k.
+Arguments PEntropy {D Rq M R} k.
+
 (* ---------------- the replication loop of simulate_pt, with the simulator object
    PhenoSimulator = (its generator, the columns appended so far).  One call of run()
    makes one draw request on the simulator's generator and appends pheno g d: a
@@ -167,3 +259,11 @@ Definition lcg_next (s : Z) : Z := (s * 1103515245 + 12345) mod 2147483648.
 Definition lcg_draw (_ : unit) (s : Z) : Z * Z := (lcg_next s, lcg_next s).
 Definition lcg_reseed (k : Z) : Z := k.
 Definition one_draw : unit -> prog Z unit Z := fun _ => Draw tt (fun d => Ret d).
+
+(* the shape of a leak through the store (a map-file parser memoised per path whose marker
+   objects the next call updates in place): the store is the bp position of one shared marker
+   (0 = as parsed); an earlier run on a --region ending at that marker overwrites it with
+   int32 max; the leaking simulation reads it, the repaired one does not *)
+Definition region_run_before : pprog Z unit Z unit := PPut 2147483647 (PRet tt).
+Definition leaky_body : pprog Z unit Z Z := PGet (fun m => PDraw tt (fun d => PRet (d + m))).
+Definition clean_body : pprog Z unit Z Z := PDraw tt (fun d => PRet d).
